@@ -18,7 +18,7 @@ META = {
     'property_id': 'C03',
     'technique': 'Lean 4 theorems (induction over arbitrary instruction lists) about a transcription of fixBlock/fixIns/checkJumpBetween/fixOriginFuncToTrampoline built on the EncodeAddress/DecodeAddress/opExpand and jump emitters regenerated from the Go source; differential run of the model against the real relocation code on every function of a test binary and a generated zoo; executed layer through the public API',
     'level': 'proof',
-    'level_text': 'Proof of the relocation arithmetic (theorem C03.reloc_faithful and companions): for every instruction list meeting the stated decoder contract, every origin/placeholder pair less than 2^31-2^21 apart whose PC-relative targets stay encodable, and copied length n <= 2^18, a successful relocation copies whole instructions covering >= 13 bytes, keeps every byte that is not the PC-relative field (opcode modulo the proved short->near map, ModRM, trailing immediates), keeps every absolute target outside the copied prefix, maps the branch-to-entry to the copy, ends in a jump that lands on origin+n, and no instruction of the function branches into (0,n); a failure writes nothing. PARTIAL for stack growth: the no-re-entry clause is proved only under the explicit hypothesis that no instruction outside the copied prefix branches to the entry (false for every Go function with a stack check: known finding F4), and the absolute jump-back form (F5) is excluded by the distance hypothesis (relative_of_near derives the relative form from it). Recorded defects kept visible as known findings: F27 whole-function copy writes raw bytes, F28 `00 00` dropped (contract clause WF.opnz), F29 failed re-mock removes the earlier mock, F30 generic functions.',
+    'level_text': 'Proof of the relocation arithmetic (theorem C03.reloc_faithful and companions): for every instruction list meeting the stated decoder contract, every origin/placeholder pair less than 2^31-2^21 apart whose PC-relative targets stay encodable, and copied length n <= 2^18, a successful relocation copies whole instructions covering >= 13 bytes, keeps every byte that is not the PC-relative field (opcode modulo the proved short->near map, ModRM, trailing immediates), keeps every absolute target outside the copied prefix, maps the branch-to-entry to the copy, ends in a jump that lands on origin+n, and no instruction of the function branches into (0,n); a failure writes nothing. PARTIAL for stack growth: the no-re-entry clause is proved only under the explicit hypothesis that no instruction outside the copied prefix branches to the entry (false for every Go function with a stack check: known finding F4), and the jump back lands on origin+n in both its forms (5-byte relative, 14-byte JMP [RIP+0] since fix 36abd0c; jump_back_lands has no distance hypothesis, fixOrigin_returns_to_origin composes it with fixOrigin). Recorded defects kept visible as known findings: F28 `00 00` dropped (contract clause WF.opnz), F29 failed re-mock removes the earlier mock, F30 generic functions.',
     'level_note': 'Trusted: Lean kernel (propext, Classical.choice, Quot.sound), tools/gen translator for addr.go/monkey_amd64.go (cross-checked on every evaluation), the hand transcription Model/Reloc.lean (tied to the code by differential execution on the instruction lists goom\'s own decoder produces: all functions of the probe binary x 4-8 placeholder positions + zoo), the decoder contract (property C16; additionally assumed: no instruction whose Opcode field is 0, i.e. the byte pair 00 00, inside the copied prefix — goom skips it), X86Mini semantics of JMP rel32. Not modelled: runtime.morestack / stack copying, unwinding through the placeholder, CreateFuncForCodePtr (executed layer only).',
 }
 
@@ -316,6 +316,18 @@ def gen_requests(tier, rng):
         oo, to = rng.choice([(0, 1024), (2048, 512)])
         reqs.append(f'c03.small {oo} {to} {rng.choice([64, 200, 900])} {f.hex()} x')
         meta.append({'kind': 'small', 'lane': 'valid', 'req': reqs[-1]})
+    # placeholder more than 2 GiB away from the function: the jump back takes the far form (JMP [RIP+0] ; .quad origin+n, 14 bytes).
+    # Only shapes without PC-relative operands (their rel32 could not reach anyway); sizes around |fixed|+14
+    plain = [PUSHBP + MOVBP + SUBSP + NOP * 8 + RET + INT3 * 3, bytes.fromhex('31c0') + bytes.fromhex('ffc0') * 6 + RET + INT3,
+             bytes.fromhex('480fafc3480fafc1480fafc7c3') + INT3 * 3, bytes.fromhex('48b81122334455667788') + NOP * 5 + RET + INT3 * 4]
+    for k in range(40 if tier == 'quick' else 400):
+        n = 13 + rng.below(20)
+        f = b''.join(rng.choice([NOP, bytes.fromhex('31c0'), bytes.fromhex('4889e5'), bytes.fromhex('4883ec20'), bytes.fromhex('b801000000')]) for _ in range(n))[:n + 8]
+        plain.append(f[:13 + rng.below(12)].rstrip(b'\x48\x83\xb8\x89\xec\x31') + NOP * 2 + RET + INT3 * (1 + rng.below(6)))
+    for f in plain:
+        for ts in (rng.choice([24, 26, 27, 28]), rng.choice([30, 34, 48, 200])):
+            reqs.append(f'c03.small 0 {rng.choice([0, 512, 1024])} {ts} {f.hex()} f')
+            meta.append({'kind': 'small', 'lane': 'valid', 'req': reqs[-1]})
     shapes = zoo_shapes()
     nrand = 1500 if tier == 'quick' else 40000
     for k in range(nrand):
@@ -399,7 +411,7 @@ def classify_unfaithful(op, r):
 EXEC_ZOO = [  # what is mocked; whether the prologue has a stack check is read from the code by the probe (stack=...)
     'S1', 'SetX', 'CmpX', 'S2', 'S3', 'Leaf', 'Load', 'Big', 'Big2', 'Printer', 'G', 'Fib', 'Sq', 'Deep', 'Mixed', 'Tiny', 'Mul4',
     'TwinLeafG', 'TripleLeafGLoad', 'TwinS2S3', 'TwinSqCube', 'TwinDblSq', 'RemockSq', 'RemockDbl', 'RemockSameBuilderCube',
-    'Generic', 'Method', 'MethodTwinTypes', 'RemockRefused']
+    'Generic', 'GenericPlain', 'Method', 'MethodTwinTypes', 'RemockRefused']
 EXEC_RECURSIVE = {'Fib', 'Deep'}
 
 
@@ -425,6 +437,12 @@ def run_exec(binary, names, maxdepth, step, tag='c03x'):
     return list(zip(names, C.read_indexed(outp, len(names))))
 
 
+def F30(obs):
+    # known finding F30 is matched by the call site — generic target + origin placeholder called from the callback — whatever the wrong
+    # outcome is (garbage result before 79126f8, crash since): the placeholder enters the shape body without the dictionary word
+    return f'origin placeholder of a generic function enters the shape body without its dictionary argument: {obs}'
+
+
 def exec_oracle(name, obs):
     """None if calling the placeholder had exactly the effect of the original at every depth, else (why, known-finding key)"""
     if obs is None:
@@ -439,13 +457,14 @@ def exec_oracle(name, obs):
                     'before the failed apply: the earlier mock is gone', 'F29-failed-remock-unpatches')
         return 'apply failed but the function no longer behaves as before / its entry bytes changed', None
     if not obs.startswith('applied'):
+        if name == 'Generic' and obs.startswith('crash:'):
+            return F30(obs), 'F30-generic-origin-abi'
         return f'calling the origin placeholder: {obs}', None
     kv = dict(p.split('=', 1) for p in obs.split()[1:] if '=' in p)
     if kv.get('inner') not in (None, 'ok'):
         return f'the function patched for a generic instantiation is not the target of the wrapper\'s CALL ({kv["inner"]}): {obs}', None
-    if name == 'Generic' and kv['wrong'] == kv['calls'] and kv['cbzero'] == '0':
-        return ('origin placeholder of a generic function: the callback and the placeholder are entered with the dictionary argument of the '
-                f'shape function in place of the first argument: {obs}', 'F30-generic-origin-abi')
+    if name == 'Generic' and kv['wrong'] != '0':
+        return F30(obs), 'F30-generic-origin-abi'
     if kv['wrong'] != '0' or kv['cbzero'] != '0' or kv['restored'] != 'true':
         return f'wrong result / callback not run / not restored: {obs}', None
     if kv['cbtwice'] != '0':
@@ -507,10 +526,12 @@ def run(tier):
             jb = cols[2] if len(cols) > 2 else 'n/a'
             if m['kind'] == 'small' and res == 'ok' and jb == 'jumps-back':
                 fsz = sum(int(x.split(':')[0]) for x in op.split()[4:])
+                if 'ff2500000000' in cols[1][2 * (int(cols[0].split('..')[1]) + 1 - 14):2 * (int(cols[0].split('..')[1]) + 1)][:12]:
+                    stats['small_far_form_jump_back'] = stats.get('small_far_form_jump_back', 0) + 1
                 if (cols[0].endswith('..-1') is False) and int(cols[0].split('..')[1]) + 1 - 5 >= fsz:
                     stats['small_copy_reaches_function_size'] = stats.get('small_copy_reaches_function_size', 0) + 1
             stats['jumpback'][m['kind'] + ':' + jb] = stats['jumpback'].get(m['kind'] + ':' + jb, 0) + 1
-            if jb in ('missing', 'jumps-elsewhere', 'prefix-differs', 'written-although-relocation-fails'):
+            if jb in ('missing', 'jumps-elsewhere', 'jumps-through-memory', 'prefix-differs', 'written-although-relocation-fails'):
                 jbad.append((k, op, res, jb, m))
             if jb == 'whole-function-raw-copy':
                 raw_whole.append((k, op, res, jb, m))
@@ -571,7 +592,7 @@ def run(tier):
                                                                    'how': 'python3 check.py C03 --replay <this file>'}, key='F27-whole-copy-raw')
     for k, op, res, jb, m in jbad[:2]:
         out.violation(f'fixOriginFuncToTrampoline: after the relocated instructions the placeholder holds no jump back to origin+n although '
-                      f'only part of the function was moved ({jb})' if jb in ('missing', 'jumps-elsewhere') else f'fixOriginFuncToTrampoline: the placeholder does not start with the relocated instructions (as the real fixRelativeAddr yields them) followed by a jump back ({jb})',
+                      f'only part of the function was moved ({jb})' if jb in ('missing', 'jumps-elsewhere', 'jumps-through-memory') else f'fixOriginFuncToTrampoline: the placeholder does not start with the relocated instructions (as the real fixRelativeAddr yields them) followed by a jump back ({jb})',
                       {'kind': 'jump-back', 'ops': [op], 'reqs': [m.get('req') or 'c03.small 0 1024 900 ' + ''.join(x.split(':')[4] for x in op.split()[4:])],
                        'observed': res, 'verdict': jb, 'how': 'python3 check.py C03 --replay <this file>'})
     # executed layer: real functions mocked through the public API, origin placeholder called at many stack depths
@@ -590,7 +611,7 @@ def run(tier):
     stats['exec'] = {n: o for n, o in xres}
     napplied = sum(1 for _, o in xres if o and o.startswith('applied'))
     stats['exec_applied'] = napplied
-    if napplied * 10 < len(xres) * 6:
+    if napplied * 10 < len(xres) * 6 and not out.violations:   # with concrete violations at hand those are the report
         raise C.Infra(f'executed layer: only {napplied} of {len(xres)} zoo functions could be mocked with an origin placeholder (floor 60%)')
     stats['evaluations'] += sum(int(dict(p.split('=', 1) for p in o.split()[1:] if '=' in p).get('calls', 1)) if o and o.startswith('applied') else 1 for _, o in xres)
     # 2. correspondence / proofs
@@ -637,7 +658,7 @@ def replay(body):
         for k, (ri, op, res, cols) in enumerate(cases):
             why = tramp_check(op, res, cols, model[k]) if model else None
             print(f'{op[:300]}\n  impl      : {res} {cols[0]}\n  placeholder: {cols[1][:160]}\n  model     : {model[k][:160] if model else None}\n  jump back : {cols[2]}  model-vs-impl: {why or "agree"}')
-            if cols[2] in ('missing', 'jumps-elsewhere', 'prefix-differs', 'written-although-relocation-fails') or why:
+            if cols[2] in ('missing', 'jumps-elsewhere', 'jumps-through-memory', 'prefix-differs', 'written-although-relocation-fails') or why:
                 rc = 1
         return rc
     ops = body.get('ops', [])
